@@ -155,6 +155,10 @@ func catalog(p ScenParams) *WSpec {
 		w.Procs = []ProcSpec{src, pp, simpleProc("q", kind)}
 		w.Edges = []Edge{fe("src", "out", "p", "in"), fe("p", "o1", "q", "in")}
 		w.PartialUnits = []string{"o1"}
+	case "g7d": // two-output task, both out-ports consumed by nobody (recorders are attached by the "recorder" extras)
+		pp := ProcSpec{Name: "p", Kind: kind, Ins: []string{"in"}, Outs: []OutSpec{{Name: "o1", Pattern: "{i:in}.o1"}, {Name: "o2", Pattern: "{i:in}.o2"}}}
+		w.Procs = []ProcSpec{src, pp}
+		w.Edges = []Edge{fe("src", "out", "p", "in")}
 	case "g7c": // two-output task upstream of the DRIVER: o1 -> last (no out-ports), o2 consumed by nobody (drained by the sink)
 		pp := ProcSpec{Name: "p", Kind: kind, Ins: []string{"in"}, Outs: []OutSpec{{Name: "o1", Pattern: "{i:in}.o1"}, {Name: "o2", Pattern: "{i:in}.o2"}}}
 		last := ProcSpec{Name: "last", Kind: kind, Ins: []string{"in"}}
@@ -454,7 +458,15 @@ func catalog(p ScenParams) *WSpec {
 			qs.BarrierOnly = []string{"in=in0.txt.p"}
 			qs.ZeroCores = true
 		}
-	case "recorder", "recorder2":
+	case "recorder", "recorder2", "recorder-bfl":
+		if p.Extra == "recorder-bfl" {
+			// ... and the first and the last task of p rendezvous (the ones in between finish while the head task runs)
+			if ps := w.proc("p"); ps != nil {
+				ps.Barrier = "b"
+				ps.BarrierOnly = []string{"in0.txt", fmt.Sprintf("in%d.txt", p.Items-1)}
+				ps.BarrierEnd = []string{"in0.txt"} // the head task ends only when the last one has started
+			}
+		}
 		// an ordinary custom process reading every out-port nobody consumes (recorder2: TWO of them on
 		// each such port - a fan-out whose receivers must each see the items in order)
 		n := len(w.Procs)
